@@ -319,15 +319,15 @@ var _ = ssa.Value(nil)
 
 func init() {
 	addFixture(Fixture{Name: "modes-aff-down-mul", Rule: "R-MODE-TABLES", File: "types/modality.go",
-		Old: "\tcase *MulticastMode:\n\t\treturn false\n\tcase *AffineMode:\n\t\treturn true\n\tcase *LinearMode:\n\t\treturn true\n",
-		New: "\tcase *MulticastMode:\n\t\treturn true\n\tcase *AffineMode:\n\t\treturn true\n\tcase *LinearMode:\n\t\treturn true\n",
+		Old:    "\tcase *MulticastMode:\n\t\treturn false\n\tcase *AffineMode:\n\t\treturn true\n\tcase *LinearMode:\n\t\treturn true\n",
+		New:    "\tcase *MulticastMode:\n\t\treturn true\n\tcase *AffineMode:\n\t\treturn true\n\tcase *LinearMode:\n\t\treturn true\n",
 		Expect: "converse:"})
 	addFixture(Fixture{Name: "modes-lin-weaken", Rule: "R-MODE-TABLES", File: "types/modality.go",
-		Old: "func (q *LinearMode) AllowsWeakening() bool {\n\treturn false",
-		New: "func (q *LinearMode) AllowsWeakening() bool {\n\treturn true",
+		Old:    "func (q *LinearMode) AllowsWeakening() bool {\n\treturn false",
+		New:    "func (q *LinearMode) AllowsWeakening() bool {\n\treturn true",
 		Expect: "shape"})
 	addFixture(Fixture{Name: "spelling-mul-affine", Rule: "R-SPELLINGS", File: "types/modality.go",
-		Old: "\tcase \"mul\":\n\t\treturn &MulticastMode{}",
-		New: "\tcase \"mul\":\n\t\treturn &AffineMode{}",
+		Old:    "\tcase \"mul\":\n\t\treturn &MulticastMode{}",
+		New:    "\tcase \"mul\":\n\t\treturn &AffineMode{}",
 		Expect: "spelling:mul"})
 }
